@@ -116,6 +116,15 @@ CHECKS = {
             "must be equal and the mmCIF-flavoured file must carry its trailer.",
             "Trusted: the harness' mmCIF writer (atom_site loop in wwPDB layout + header categories copied from "
             "tests/data/1FAS.cif). Only the installed mmcif-pdbx 2.1.0 is exercised.", "DESIGN.md#c10"),
+    "C06": ("exploration", "stubbed-source monitor: main.run_propka replaced by a harness pKa table (PROPKA row schema); outcome per group vs a truth table over (pH<pKa, force-field support from the independent model); monotonicity checker over pH sweeps (stub and real PROPKA)",
+            "All 276 reachable (group, position, force field, side-of-pKa) cells are driven with pKa values random, "
+            "equal to and 1e-9 around the pH; each group's final state (read off the atoms of the result) must be the "
+            "titrated state iff the pH is on its side of the pKa and the independent force-field model has a row for "
+            "every atom of that state at that position, otherwise the default state plus a warning record emitted "
+            "during the titration stage; sweeps require a non-increasing total and no disappearing residue.",
+            "Trusted: the stub's row schema (copied from a real PROPKA 3.5.1 run); support = complete rows in the "
+            "independent force-field model. Known finding: terminal-group rows never reach the titration stage.",
+            "DESIGN.md#c06"),
 }
 
 NOT_APPLICABLE = {}
